@@ -20,6 +20,7 @@ template <class C> struct Runner {
         if (what.empty()) what = mem.bypass();
         if (what.empty()) what = mem.misuse();
         if (what.empty() && mem.kind != 1 && (mem.led.n_realloc || mem.led.n_reallocarray) && mem.kind == 2) what = "the backend of a completed manager was asked for realloc/reallocarray";
+        if (what.empty()) what = sc.inputs_changed();
         sc.cleanup(rc);
         if (what.empty() && mem.outstanding() != 0) what = fmt("%ld block(s) outstanding after the matching release call", mem.outstanding());
         uint64_t f1 = mem.frees(); sc.cleanup_again();
